@@ -11,7 +11,7 @@ import (
 // value is always 0, which by convention is the "boring" choice (keep running
 // the same goroutine, no fault, smallest size). Minimisation edits the tape.
 type Tape struct {
-	mu  sync.Mutex
+	mu     sync.Mutex
 	rng    *rand.Rand
 	vals   []uint32
 	pos    int
